@@ -228,11 +228,13 @@ theorem pe_doRegister (st : St) (k : Int) (reg : St → St × Nat) (h : ∀ s, P
     · exact (h st).trans (pe_with_slots _ _)
 
 
+theorem pe_with_cancelReq (st : St) (l : List Int) : PendExt st { st with cancelReq := l } := PendExt.of_eq rfl
+
 theorem pe_doCancel (st : St) (k : Int) : PendExt st (doCancel st k) := by
   unfold doCancel
   split
   · exact (pe_emit _ _)
-  · exact pe_watchCancel _ _
+  · exact (pe_with_cancelReq _ _).trans (pe_watchCancel _ _)
 
 
 theorem pe_runAct (st : St) (act : Act) : PendExt st (runAct st act) := by
